@@ -129,6 +129,40 @@ fn rpfm_attr_cases() -> Vec<Vec<u8>> {
     v
 }
 
+/// a frame with a generated attribute block: 0..3 TLV records (known and unknown types, declared lengths that agree or not
+/// with what follows), then 0..2 stray bytes
+fn rpfm_attr_any(r: &mut Rng) -> Vec<u8> {
+    if r.chance(1, 2) {
+        let c = rpfm_attr_cases();
+        return c[r.below(c.len())].clone();
+    }
+    let mut attr: Vec<u8> = vec![];
+    for _ in 0..r.below(4) {
+        let t = *r.pick(&[1u8, 2, 3, 3, 9, 0, 255]);
+        let declared = *r.pick(&[0u8, 1, 2, 5, 6, 7, 18, 19, 255]);
+        let actual = match r.below(4) {
+            0 => declared as usize,
+            1 => (declared as usize).saturating_sub(1),
+            2 => declared as usize + 1,
+            _ => r.below(8),
+        };
+        attr.push(t);
+        attr.push(declared);
+        attr.extend((0..actual).map(|i| if i + 2 >= actual { [0u8, 80][i % 2] } else { b'a' + (i % 26) as u8 }));
+    }
+    for _ in 0..r.below(3) {
+        attr.push(*r.pick(&[0u8, 1, 3, 255]));
+    }
+    let body = r.rbytes(0, 5);
+    let mut b = b"RPFM".to_vec();
+    b.extend_from_slice(&7u32.to_be_bytes());
+    b.extend_from_slice(&(attr.len() as u16).to_be_bytes());
+    b.extend_from_slice(&(body.len() as u16).to_be_bytes());
+    b.extend_from_slice(&attr);
+    b.extend_from_slice(&body);
+    b
+}
+
 async fn h11c_connect_case(out: &mut Out, r: &mut Rng) {
     // hostile upstream answering the CONNECT the real h11c_connect sends
     let statuses = ["HTTP/1.1 200 OK", "HTTP/1.1 200", "HTTP/1.1 99999 x", "HTTP/1.1 -1 x", "HTTP/1.1 abc x", "HTTP/1.1  200 OK", "HTTP/9 200 OK", "200 OK HTTP/1.1", "", "HTTP/1.1 407 Auth"];
@@ -147,7 +181,7 @@ async fn h11c_connect_case(out: &mut Out, r: &mut Rng) {
         bytes = mutate(r, &bytes);
     }
     if r.chance(1, 2) {
-        bytes.extend_from_slice(&rpfm_attr_cases()[r.below(10)]);
+        bytes.extend_from_slice(&rpfm_attr_any(r));
     }
     let feature = *r.pick(&[Feature::TcpForward, Feature::UdpForward, Feature::UdpBind]);
     out.case();
@@ -238,7 +272,7 @@ async fn h11c_handshake_case(out: &mut Out, r: &mut Rng) {
         bytes = mutate(r, &bytes);
     }
     if r.chance(1, 2) {
-        bytes.extend_from_slice(&rpfm_attr_cases()[r.below(18)]);
+        bytes.extend_from_slice(&rpfm_attr_any(r));
     }
     out.case();
     out.nontrivial(&("h11c_handshake", &bytes));
@@ -314,7 +348,7 @@ pub async fn run(args: &Args) {
                 out.violation(format!("decode_socks_frame: {}", p.sig()), serde_json::json!({"input_hex": hex(&input), "panic": p.msg}));
             }
             // RPFM frame from one buffer (QUIC datagram path after reassembly)
-            let base = r.pick(&attrs).clone();
+            let base = if r.chance(1, 2) { r.pick(&attrs).clone() } else { rpfm_attr_any(&mut r) };
             let input = match i % 4 { 0 => base, 1 => { let mut b = b"RPFM".to_vec(); b.extend(r.rbytes(0, 29)); b } _ => mutate(&mut r, &base) };
             out.case();
             out.nontrivial(&("rpfm-buffer", &input));
@@ -360,8 +394,8 @@ pub async fn run(args: &Args) {
             let input = match r.below(10) {
                 0 => r.rbytes(0, 63),
                 1 if codec == "rpfm-frames" => {
-                    let mut b = r.pick(&attrs).clone();
-                    if r.chance(1, 2) { b.extend(r.pick(&attrs).clone()); }
+                    let mut b = if r.chance(1, 2) { r.pick(&attrs).clone() } else { rpfm_attr_any(&mut r) };
+                    if r.chance(1, 2) { b.extend(rpfm_attr_any(&mut r)); }
                     b
                 }
                 2 => { let k = r.below(m.bytes.len() + 1); m.bytes[..k].to_vec() }
